@@ -2,7 +2,7 @@
    triples are valid.  Only statements closed by [exact], each followed by
    Print Assumptions. *)
 From Coq Require Import NArith List Bool Arith.
-From Mpc Require Import Base.Codec Circuit.Circuit Gmw.Gmw Gmw.Pool Gmw.GmwProof Gmw.PoolSync Gmw.PoolSyncProof.
+From Mpc Require Import Base.Codec Circuit.Circuit Gmw.Gmw Gmw.Pool Gmw.GmwProof Gmw.PoolSync Gmw.PoolSyncProof Gmw.GmwReuse Gmw.GmwReuseProof.
 Import ListNotations.
 From Mpc Require Gen.State Base.StateExpected Base.StateCheck Base.StatePkgs.
 Local Open Scope nat_scope.
@@ -179,6 +179,49 @@ Theorem C10_last_word_count :
     1 <= cnt <= 64 /\ (n mod 64 = 0 -> cnt = 64).
 Proof. exact last_word_count. Qed.
 Print Assumptions C10_last_word_count.
+
+(* (7) Network reuse.  Network.Run does not clear nw.wires: a run starts on
+   the wire shares the previous run left (GmwReuse.v: setWires overwrites the
+   input positions, gates overwrite their outputs, everything else — also all
+   positions at or above the new circuit's NumWires — keeps its old share;
+   nw.output = wires >> (NumWires - nout) carries those stale shares above
+   bit nout; Outputs.Split reads exactly Outputs.Size() bits).
+   For every sequence of jobs (circuit, input split, inputs, share
+   randomness), each well formed, single assignment, OR-free and for the
+   network's number of parties, and for EVERY state the parties' wires may be
+   in at the start (any contents, equal length at all parties — in particular
+   whatever any earlier runs left behind), with valid triple streams holding
+   enough words for the whole sequence: every run succeeds and every party's
+   result of every run is the plain evaluation of THAT run's circuit on THAT
+   run's inputs. *)
+Theorem C10_reuse_independent :
+  forall (jobs : list job) (sts : list pstate) (Lp : nat),
+    sts <> [] ->
+    (forall st, In st sts -> length (ps_wires st) = Lp) ->
+    valid_streams (map sstream sts) ->
+    (forall st, In st sts -> total_need jobs <= length (sstream st)) ->
+    Forall (job_ok (length sts)) jobs ->
+    exists outs, run_seq jobs sts = Some outs /\
+      Forall2 (fun j o => length o = length sts /\
+                          forall r, In r o -> r = eval_plain (jc j) (concat (jinputs j))) jobs outs.
+Proof. exact reuse_independent. Qed.
+Print Assumptions C10_reuse_independent.
+
+(* Regression record for the truncation in Split: after a 6-wire circuit the
+   opened output of a 3-wire, 1-output circuit is [result; stale w3; w4; w5];
+   returned without reading exactly nout bits it would differ from the plain
+   evaluation [true]. *)
+Theorem C10_reuse_untruncated_output_refuted :
+  match run_on ex_big [1; 1] [[true]; [true]] (fun _ _ => [true]) (fresh [([], [], []); ([], [], [])]) with
+  | Some (sts1, _) =>
+      match run_on ex_small [1; 1] [[true]; [false]] (fun _ _ => [false]) sts1 with
+      | Some (sts2, _) => bxor_bits 0 (map (fun st => out_go ex_small (ps_wires st)) sts2)
+      | None => []
+      end
+  | None => []
+  end = [true; true; false; true].
+Proof. exact ex_reuse_stale_without_split. Qed.
+Print Assumptions C10_reuse_untruncated_output_refuted.
 
 (* STATE INVENTORY (finite obligation on the model regenerated from the source, checked by
    computation).  The struct fields and package-level variables of the Go packages this
